@@ -113,7 +113,66 @@ def _unalias_children(fnode):
     return out
 
 
+_INLINED = {}
+
+
+def _inline_index_locals(fnode):
+    """the function with locals that only name a position read through: `pos = len(self)` / `last = len(self) - 1` / `at = index`
+    bound exactly once (not a parameter, not in a loop), from an expression made of names, constants, arithmetic and len(..), and with
+    no operation on the built-in storage between the binding and any use (so that len(self) means the same at both places) - the
+    effects are then keyed by the expression, whatever the local is called"""
+    ent = _INLINED.get(id(fnode))
+    if ent is not None and ent[0] is fnode:
+        return ent[1]
+    import copy
+    params = {a.arg for a in fnode.args.args + fnode.args.kwonlyargs + fnode.args.posonlyargs} | ({fnode.args.vararg.arg} if fnode.args.vararg else set()) | ({fnode.args.kwarg.arg} if fnode.args.kwarg else set())
+    stores = {}
+    for n in ast.walk(fnode):
+        if isinstance(n, ast.Name) and isinstance(n.ctx, (ast.Store, ast.Del)):
+            stores[n.id] = stores.get(n.id, 0) + 1
+
+    def simple(e):
+        for x in ast.walk(e):
+            if isinstance(x, ast.Call):
+                if not (isinstance(x.func, ast.Name) and x.func.id == 'len' and len(x.args) == 1 and not x.keywords):
+                    return False
+            elif not isinstance(x, (ast.Name, ast.Constant, ast.BinOp, ast.UnaryOp, ast.operator, ast.unaryop, ast.expr_context)):
+                return False
+        return True
+    mutators = [n for n in ast.walk(fnode) if isinstance(n, ast.Call) and isinstance(n.func, ast.Attribute) and n.func.attr in B_TABLE]
+    cands = {}
+    for st in fnode.body:       # (top-level statements of the body only: never inside a loop)
+        if isinstance(st, ast.Assign) and len(st.targets) == 1 and isinstance(st.targets[0], ast.Name) and stores.get(st.targets[0].id) == 1 \
+                and st.targets[0].id not in params and simple(st.value) and any(isinstance(x, ast.Call) for x in ast.walk(st.value)):
+            name = st.targets[0].id
+            uses = [n for n in ast.walk(fnode) if isinstance(n, ast.Name) and n.id == name and isinstance(n.ctx, ast.Load)]
+            inner = {id(x) for x in ast.walk(fnode) if isinstance(x, (ast.FunctionDef, ast.Lambda)) and x is not fnode for x in ast.walk(x)}
+            if not uses or any(id(u) in inner for u in uses):
+                continue
+            last = max((u.lineno, u.col_offset) for u in uses)
+            if any((st.lineno, st.col_offset) < (m.lineno, m.col_offset) < last and not any(u.lineno == m.lineno and m.col_offset <= u.col_offset <= (m.end_col_offset or 10 ** 6) for u in uses if (u.lineno, u.col_offset) == last) for m in mutators):
+                continue
+            cands[name] = st
+    out = fnode
+    if cands:
+        out = copy.deepcopy(fnode)
+        exprs = {k: v.value for k, v in cands.items()}
+
+        class S(ast.NodeTransformer):
+            def visit_Name(self, n):
+                if n.id in exprs and isinstance(n.ctx, ast.Load):
+                    return ast.copy_location(copy.deepcopy(exprs[n.id]), n)
+                return n
+        out = S().visit(out)
+        out.body = [st for st in out.body if not (isinstance(st, ast.Assign) and len(st.targets) == 1 and isinstance(st.targets[0], ast.Name) and st.targets[0].id in cands)]
+        ast.fix_missing_locations(out)
+    _INLINED[id(fnode)] = (fnode, out)
+    return out
+
+
 class Analyzer:
+    _memo_numbers = {}
+
     def __init__(self, repo, cls_name, max_depth=9, max_paths=6000):
         self.repo = repo
         self.cls = cls_name
@@ -212,7 +271,7 @@ class Analyzer:
         key = id(fi.node)
         if key in self._memo and not self._abort:
             return [p.copy() for p in self._memo[key]]
-        res = self._run(_unalias_children(fi.node).body, [Path()], fi, depth)
+        res = self._run(_inline_index_locals(_unalias_children(fi.node)).body, [Path()], fi, depth)
         if depth > 0:
             # summarise: effect-free paths carry no information for the caller (its own branch tests are recorded
             # as facts by the caller); keep one representative per outcome
@@ -321,6 +380,22 @@ class Analyzer:
                 raise AnalysisError('path explosion in %s' % fi.qualname)
         return ps
 
+    def _numbers_its_argument(self, h):
+        """the module-level helper h(elements) evaluated on concrete sequences: does it return {0: e0, 1: e1, ...} in order?"""
+        key = id(h.node)
+        if key not in self._memo_numbers or self._memo_numbers[key][0] is not h.node:
+            from .fde import FDE, Unsupported, Raised
+            ok = True
+            try:
+                for seq in (['x', 'y', 'z'], [], ['only']):
+                    r = FDE(self.repo, max_depth=4).call(h, list(seq))
+                    if r.raised or not isinstance(r.ret, dict) or list(r.ret.items()) != list(enumerate(seq)):
+                        ok = False
+            except (Unsupported, Raised, AnalysisError):
+                ok = False
+            self._memo_numbers[key] = (h.node, ok)
+        return self._memo_numbers[key][1]
+
     def _synth(self, name, args, like):
         c = ast.Call(func=ast.Attribute(value=ast.Name(id='self', ctx=ast.Load()), attr=name, ctx=ast.Load()), args=args, keywords=[])
         ast.copy_location(c, like)
@@ -348,6 +423,22 @@ class Analyzer:
                 rhs = st.value
                 if isinstance(rhs, ast.Name) and rhs.id in p.locals:
                     rhs = p.locals[rhs.id]          # `tmp = {...}; self._children = tmp`
+                if isinstance(rhs, ast.Call) and isinstance(rhs.func, ast.Name) and len(rhs.args) == 1 and not rhs.keywords and unparse(rhs.args[0]) == 'self' \
+                        and rhs.func.id in fi.module.functions and rhs.func.id not in fi.module.rebound:
+                    # a private module-level helper that only returns an expression of its parameter: read through (self._children = _number_children(self))
+                    h = fi.module.functions[rhs.func.id]
+                    body = [x for x in h.node.body if not (isinstance(x, ast.Expr) and isinstance(x.value, ast.Constant))]
+                    hp = h.params()
+                    if len(body) == 1 and isinstance(body[0], ast.Return) and body[0].value is not None and len(hp) == 1:
+                        import copy as _copy
+
+                        class R(ast.NodeTransformer):
+                            def visit_Name(self, n):
+                                return ast.copy_location(ast.Name(id='self', ctx=n.ctx), n) if n.id == hp[0] else n
+                        rhs = R().visit(_copy.deepcopy(body[0].value))
+                if isinstance(rhs, ast.Call) and isinstance(rhs.func, ast.Name) and len(rhs.args) == 1 and not rhs.keywords and unparse(rhs.args[0]) == 'self' \
+                        and rhs.func.id in fi.module.functions and rhs.func.id not in fi.module.rebound and self._numbers_its_argument(fi.module.functions[rhs.func.id]):
+                    rhs = ast.parse('dict(enumerate(self))', mode='eval').body       # a helper that numbers the elements of its argument (decided by evaluation)
                 v = norm(rhs)
                 canonical = v.replace(' ', '') in ('{idx:childforidx,childinenumerate(self)}', '{i:cfori,cinenumerate(self)}', 'dict(enumerate(self))', '{i:vfori,vinenumerate(self)}', '{idx:valueforidx,valueinenumerate(self)}')
                 if not canonical:
